@@ -6,7 +6,7 @@
     specification rejects. *)
 From Coq Require Import ZArith List Bool String.
 From Low Require Import Lib.Bits Lib.BitSeq Lib.Lex Lib.Bytes Lib.Val
-  Spec.Bmtree Spec.IndexSpec Spec.ContractSpec Model.BmtreePath Model.BmtreeIndex.
+  Spec.Bmtree Spec.IndexSpec Spec.ContractSpec Spec.FromStr32Spec Model.BmtreePath Model.BmtreeIndex Model.FromStr32.
 Import ListNotations.
 Open Scope string_scope.
 Open Scope Z_scope.
@@ -138,6 +138,53 @@ Definition op_child (name : string) (dbg : bool) : opdef :=
            | _, _ => VBad end
        | _ => VBad end) |}.
 
+(** widening (with C11): from a key to its index.  args [T, s, from]; the height is Height T; the
+    implementation computes PathToIndexLoose(T, PathOf(s, from, h)) (resp. PathToIndex when the node's
+    level is stored); the specification ranks the node spelled by the key's bits from .. from+h. *)
+Definition c03_key_dom (T : Z) (s : list Z) (from : Z) : bool :=
+  (1 <=? T) && (T <? 2 ^ 31) && (0 <=? from) && (from + Height T + 7 <? 2 ^ 31) && bytes_okb s.
+
+Definition c03_key_node (T : Z) (s : list Z) (from : Z) : node :=
+  firstn (Z.to_nat (clamp (8 * zlen s - from) 0 (Height T))) (skipn (Z.to_nat from) (msb_bits s)).
+
+Definition op_key_loose (name : string) (dbg : bool) : opdef :=
+  {| op_name := name;
+     op_run := fun a => match a with
+       | [VZ T; s; VZ from] => match as_zs s with
+           | Some s =>
+               if c03_key_dom T s from then
+                 match PathOf s from (Height T) with
+                 | Some p => match (if dbg then PathToIndexLoose_debug else PathToIndexLoose) T p with
+                             | Some r => vpairZ r | None => VPanic end
+                 | None => VPanic end
+               else VBad
+           | None => VBad end
+       | _ => VBad end;
+     op_spec := fun_spec (fun a => match a with
+       | [VZ T; s; VZ from] => match as_zs s with
+           | Some s => vpairZ (spec_loose T (c03_h T) (c03_key_node T s from))
+           | None => VBad end
+       | _ => VBad end) |}.
+
+Definition op_key_strict (name : string) (dbg : bool) : opdef :=
+  {| op_name := name;
+     op_run := fun a => match a with
+       | [VZ T; s; VZ from] => match as_zs s with
+           | Some s =>
+               if c03_key_dom T s from && stored T (c03_key_node T s from) then
+                 match PathOf s from (Height T) with
+                 | Some p => match (if dbg then PathToIndex_debug else PathToIndex) T p with
+                             | Some i => VZ i | None => VPanic end
+                 | None => VPanic end
+               else VBad
+           | None => VBad end
+       | _ => VBad end;
+     op_spec := fun_spec (fun a => match a with
+       | [VZ T; s; VZ from] => match as_zs s with
+           | Some s => VZ (spec_rank T (c03_h T) (c03_key_node T s from))
+           | None => VBad end
+       | _ => VBad end) |}.
+
 Definition ops_C03 : list opdef := [
   (* any node: (index, has) *)
   op_loose "bmtree.PathToIndexLoose" false;
@@ -150,5 +197,10 @@ Definition ops_C03 : list opdef := [
   op_raw_strict "bmtree.PathToIndex/debug-raw";
   (* parent and child in one case: the child rule *)
   op_child "bmtree.PathToIndexLoose/child" false;
-  op_child "bmtree.PathToIndexLoose/child/debug" true
+  op_child "bmtree.PathToIndexLoose/child/debug" true;
+  (* from a key to its index: PathOf, then PathToIndexLoose / PathToIndex *)
+  op_key_loose "bmtree.PathOf+PathToIndexLoose" false;
+  op_key_loose "bmtree.PathOf+PathToIndexLoose/debug" true;
+  op_key_strict "bmtree.PathOf+PathToIndex" false;
+  op_key_strict "bmtree.PathOf+PathToIndex/debug" true
 ].
